@@ -3,6 +3,7 @@ package main
 import (
 	"fmt"
 	"io"
+	"os"
 	"strconv"
 	"strings"
 	"time"
@@ -142,7 +143,14 @@ func atoi(s string) int {
 	return n
 }
 
-const guardTime = 3 * time.Second
+// deadline of a guarded call; instrumented builds (-race) and loaded machines scale it
+var guardTime = 3 * time.Second
+
+func init() {
+	if v, err := strconv.Atoi(os.Getenv("VERIF_GUARD_SCALE")); err == nil && v > 1 {
+		guardTime *= time.Duration(v)
+	}
+}
 
 var _ = fmt.Sprint
 var _ structform.Visitor = (*recorder)(nil)
